@@ -393,6 +393,7 @@ def check_c06(run):
 
 @check("C17", "model_checking")
 def check_c17(run):
+    matrix_run(run, REBUILD_CELLS[:3] + [dict(DIMV=2, REAL_T="double", DATA_T="float", ORDERV=0, AUTOBS=0, REBUILDV=0, EXECV=0)], 30 if run.tier == "quick" else 150, ["Export"])
     run_fmm_configs(run, "C17", tree_configs(run.tier)[:3], module="BlockTreeMC", shards=8, workers=1, parallel=2)
     run_fmm_configs(run, "C17", std_configs(run.tier, hists=("full", "move1"), small=True)
                     + [("tsm-1d-h4", fmm_constants(1, 4, range(5), mode="tsm", bss=(1, 2, 3)))])
@@ -462,6 +463,8 @@ def check_c12(run):
 
 @check("C13", "model_checking")
 def check_c13(run):
+    # rebuild with other coordinate / data / result types, orderings and target/source trees (counting kernel with two heavy result values)
+    matrix_run(run, REBUILD_CELLS, 30 if run.tier == "quick" else 150, ["ExactlyOnce", "DataBitExact", "StoredOnce", "InRightLeaf", "RebuildResets"])
     hists = ("rebuild", "move1", "move2")
     if run.tier == "quick":
         cs = [("1d-h5", fmm_constants(1, 5, POOL_1D_H5[:7], bss=(1, 2, 3, 20), hists=hists)),
@@ -810,20 +813,15 @@ def matrix_cells(tier):
     return cells
 
 
-@check("C19", "exploration")
-def check_c19(run):
-    cells = matrix_cells(run.tier)
+def matrix_run(run, cells, iters, kinds=None):
+    """Compile and run translation units of harness/matrix.cpp; report compile failures, crashes and mismatches (filtered by kinds)."""
     def cname(c):
         return "matrix_" + "_".join("%s%s" % (k[0].lower() + k[1:3].lower(), v) for k, v in sorted(c.items()))
-    specs = [dict(name=cname(c), source="matrix.cpp", defines=["%s=%s" % kv for kv in c.items()], variant="plain") for c in cells]
-    # the configuration matrix is compiled WITHOUT -DNDEBUG so that library assertions are active too
     built = {}
     with ThreadPoolExecutor(max_workers=vlib.NCPU) as ex:
-        futs = {sp["name"]: ex.submit(build, sp["name"], sp["source"], sp["defines"], "plain", ("-UNDEBUG",)) for sp in specs}
+        futs = {cname(c): ex.submit(build, cname(c), "matrix.cpp", ["%s=%s" % kv for kv in c.items()], "plain", ("-UNDEBUG",)) for c in cells}
         for n, f in futs.items():
             built[n] = f.result()
-    iters = 30 if run.tier == "quick" else 120
-    ran = 0
     def runone(c):
         n = cname(c)
         path, err = built[n]
@@ -833,7 +831,7 @@ def check_c19(run):
         return n, c, (rc, out, errtxt), None
     with ThreadPoolExecutor(max_workers=8) as ex:
         results = list(ex.map(runone, cells))
-    total_scn = 0
+    total_scn, ran = 0, 0
     for n, c, res, err in results:
         if res is None:
             log_txt = open(err).read()[-3000:] if err and os.path.exists(err) else ""
@@ -849,10 +847,27 @@ def check_c19(run):
         ran += 1
         seen = set()
         for kind, key, text in mism:
+            if kinds is not None and kind not in kinds:
+                continue
             if (kind, n) in seen:
                 continue
             seen.add((kind, n))
             run.violation(kind + ":" + key, text, run.write_replay(kind + "-" + n, {"kind": "matrix", "cell": c, "key": key, "text": text}))
+    run.coverage["matrix_units_run"] = run.coverage.get("matrix_units_run", 0) + ran
+    run.coverage["matrix_scenarios"] = run.coverage.get("matrix_scenarios", 0) + total_scn
+    return total_scn, ran
+
+
+REBUILD_CELLS = [dict(DIMV=1, REAL_T="float", ORDERV=0, AUTOBS=0, REBUILDV=1, EXECV=0), dict(DIMV=2, REAL_T="float", DATA_T="double", ORDERV=0, AUTOBS=0, REBUILDV=1, EXECV=0),
+                 dict(DIMV=3, REAL_T="double", ORDERV=1, AUTOBS=0, REBUILDV=1, EXECV=0), dict(DIMV=3, REAL_T="double", ORDERV=2, AUTOBS=0, REBUILDV=1, EXECV=0),
+                 dict(DIMV=2, REAL_T="double", ORDERV=0, AUTOBS=1, REBUILDV=1, EXECV=2), dict(DIMV=4, REAL_T="float", ORDERV=0, AUTOBS=0, REBUILDV=1, EXECV=0)]
+
+
+@check("C19", "exploration")
+def check_c19(run):
+    cells = matrix_cells(run.tier)
+    iters = 30 if run.tier == "quick" else 120
+    total_scn, ran = matrix_run(run, cells, iters)
     run.coverage["evaluations"] = total_scn
     run.coverage["distinct_nontrivial"] = len(cells)
     run.coverage["translation_units"] = len(cells)
